@@ -26,7 +26,7 @@ ANCHORS = [("leuvenmapmatching/matcher/base.py", "LatticeColumn.prune"),
            ("leuvenmapmatching/matcher/base.py", "BaseMatching._update_inner")]
 FLOORS = {"windows": 8000, "windows_with_postponed": 1500, "ne_windows_with_postponed": 200, "tie_extension_windows": 100,
           "widenings": 400, "pruned_vs_unpruned": 1500, "pruning_changed_result": 80, "wide_enough_runs": 800, "parents_checked": 8000,
-          "widening_complete_to_complete": 150, "ne_filter_entries_compared": 3000, "ne_filter_entries_compared_pruned": 800}
+          "widening_complete_to_complete": 150, "ne_filter_entries_compared": 3000, "ne_filter_entries_compared_pruned": 800, "pruned_vs_unpruned:exhaustive-configuration": 1500}
 ASSUMPTIONS = ["'plus exact ties' is read as part of the definition of the expanded set: a candidate exactly tied with an expanded one is expanded "
                "too, hence the strict clause max(postponed) < min(expanded) (validated on the unchanged tree, DESIGN.md C07)",
                "pruned-vs-unpruned and widening clauses compare first-order or second-order runs alike: only index and best probability",
@@ -144,9 +144,16 @@ def check_case(ctx, case):
         ctx.evaluated()
         pidx = -1 if p["empty"] else p["idx"]
         uidx = -1 if u["empty"] else u["idx"]
-        mode = ("non-emitting-on:" + cfg["family"]) if cfg["non_emitting"] else "emitting-only"
-        if cfg["agb"]:
-            mode += ":second-order"
+        # The clause presupposes that the unpruned search is exhaustive.  That is the case for first-order configurations with
+        # an exact column update; three search heuristics of the repository break it (recorded findings, DESIGN.md 9.4):
+        if cfg["non_emitting"] and cfg["family"] == "simple_nodes":
+            mode = "heuristic:node-states-nonemitting-dedupe"
+        elif cfg["non_emitting"] and cfg["family"] == "distance" and cfg.get("restrained_ne", True):
+            mode = "heuristic:restrained-nonemitting-skip"
+        elif cfg["agb"]:
+            mode = "heuristic:second-order-penalties"
+        else:
+            mode = "exhaustive-configuration:" + cfg["family"] + (":non-emitting" if cfg["non_emitting"] else "")
         if pidx > uidx:
             ctx.violation(f"C07:pruned-run-matched-more-than-unpruned:{mode}", case, f"W={cfg['width']}: pruned idx {pidx}, unpruned idx {uidx}")
         elif p["complete"] and u["complete"] and not close_leq(p["best"], u["best"]):
@@ -154,6 +161,7 @@ def check_case(ctx, case):
         changed = (pidx != uidx) or (p["complete"] and u["complete"] and abs(p["best"] - u["best"]) > 1e-9 * max(1, abs(u["best"])))
         if changed:
             ctx.count("pruning_changed_result")
+        ctx.count("pruned_vs_unpruned:" + mode.split(":")[0])
         # W >= number of candidates ever live in a layer: must coincide with the unpruned run
         c3 = dict(cfg)
         c3["width"] = max(1, u["maxc"])
